@@ -296,7 +296,9 @@ class C02(L1Prop):
                     pre.append(f"http POST as hyph=latest:{cc} hyph={cc} snapshot b:9")
             classes = [x.format(c=c, o=o) for x in PARENT_CLASSES if not x.startswith("client")]
             for ci, cls in enumerate(classes):
-                ops = pre + ["dumpall", f"http POST av hyph={cls} hyph={c} history b:77,{ci}", "dumpall"]
+                # bodies of one chunk (sent with Content-Length) and of several (streamed, no length announced)
+                body = [f"b:77,{ci}", f"chunks:{3 + ci},{1 + k % 7},5", f"chunks:1,1,{2 + ci}"][(k + ci) % 3]
+                ops = pre + ["dumpall", f"http POST av hyph={cls} hyph={c} history {body}", "dumpall"]
                 out.append(Case(f"c02-h{k}-{ci}", ops, {"http": True}, mode="http"))
             # the very first request for a client the server has never seen (the handler's
             # create-and-retry path): the stored record must still be exactly what was submitted
